@@ -57,6 +57,9 @@ func genFor(model string) func(t *rapid.T) Case {
 		if rapid.Bool().Draw(t, "stored0") {
 			for j := range c.State0 {
 				c.State0[j] = rapid.Float64Range(0, 1e4).Draw(t, "m0")
+				if c.State0[j] < 1e-6 {
+					c.State0[j] = 0 // a stored mass of 1e-300 kg is a float artefact (mass ratios overflow), not data
+				}
 			}
 		}
 		if name == "InstreamFineSediment" && rapid.IntRange(0, 3).Draw(t, "negchan") == 0 {
